@@ -83,17 +83,26 @@ func File(filename string, src []byte, opt Options) ([]byte, Stats, error) {
 	if !r.used {
 		return src, r.stats, nil
 	}
-	// add the runtime import
-	imp := &ast.GenDecl{Tok: token.IMPORT, Specs: []ast.Spec{&ast.ImportSpec{
-		Name: ast.NewIdent("verifrt"), Path: &ast.BasicLit{Kind: token.STRING, Value: strconv.Quote(opt.RtImport)}}}}
-	// insert after the last import decl (or first)
-	idx := 0
-	for i, d := range f.Decls {
+	// add the runtime import to the first import declaration (a separate
+	// declaration would be printed in the middle of comment-attached code such
+	// as //go:embed directives)
+	spec := &ast.ImportSpec{Name: ast.NewIdent("verifrt"), Path: &ast.BasicLit{Kind: token.STRING, Value: strconv.Quote(opt.RtImport)}}
+	added := false
+	for _, d := range f.Decls {
 		if gd, ok := d.(*ast.GenDecl); ok && gd.Tok == token.IMPORT {
-			idx = i + 1
+			if gd.Lparen == token.NoPos {
+				gd.Lparen = gd.Pos()
+				gd.Rparen = gd.End()
+			}
+			gd.Specs = append(gd.Specs, spec)
+			added = true
+			break
 		}
 	}
-	f.Decls = append(f.Decls[:idx], append([]ast.Decl{imp}, f.Decls[idx:]...)...)
+	if !added {
+		imp := &ast.GenDecl{Tok: token.IMPORT, Specs: []ast.Spec{spec}}
+		f.Decls = append([]ast.Decl{imp}, f.Decls...)
+	}
 	// keep possibly now-unused imports alive
 	keep := map[string]string{"os": "Args", "net/http": "StatusOK", "syscall": "O_RDONLY", "crypto/rand": "Reader"}
 	for name, p := range r.pkgName {
